@@ -210,3 +210,43 @@ func specMinMax(isMin bool, args []interface{}, nargs int, got interface{}, fail
 		}
 	}
 }
+
+// powCases: whole-number exponents and base intervals in which computing the power any other
+// way than the platform's pow shows: a reciprocal taken after an overflowing product loses a
+// representable (subnormal) result (base^|n| overflows, base^n does not underflow to zero), and
+// small exponents on a generic base. (Go's own pow multiplies by repeated squaring for whole
+// exponents, so long products alone do not tell the two apart.)
+var powCases = []struct {
+	n      float64
+	lo, hi float64
+}{
+	{-1074, 2.0, 2.0},
+	{-310, 10.0, 10.0},
+	{-62, 100000, 100000},
+	{-1030, 2.0, 2.03},
+	{5, 1.0001, 1.9999},
+	{-3, 3.0001, 3.9999},
+}
+
+// VH_powWhole (C17): ঘাত(a, n) for a concrete whole n and every a of an interval is the
+// platform's pow(a, n) and identical to a ** n. pow is an uninterpreted function here, so an
+// implementation that computes whole powers any other way is refuted by the solver; the
+// intervals make the refutation show natively.
+func VH_powWhole(k int) {
+	c := powCases[k]
+	a := verifNondetFloat()
+	verifAssume(a >= c.lo && a <= c.hi)
+	in := NewInterpreter()
+	env := environment.NewEnvironmentWithParent(in.globals)
+	utils.HadError, utils.HadRuntimeError = false, false
+	verifClearEvents()
+	got, _ := in.eval(&ast.Call{Callee: ident(mathNames[6], 5), Paren: tok(token.RIGHT_PAREN, ")", 5), Arguments: []ast.Expr{lit(a, 5), lit(c.n, 5)}}, env, false)
+	verifAssert("pow-succeeds-on-numbers", !utils.HadRuntimeError)
+	if utils.HadRuntimeError {
+		return
+	}
+	verifAssert("pow-result", hvIsNum(got) && hvSameFloat(hvNum(got), math.Pow(a, c.n)))
+	viaOp := evaluateBinary(a, tok(token.POWER, "**", 5), c.n)
+	verifAssert("power-operator-result", hvIsNum(viaOp) && hvSameFloat(hvNum(viaOp), math.Pow(a, c.n)))
+	verifAssert("pow-identical-to-operator", hvIsNum(viaOp) && hvSameFloat(hvNum(viaOp), hvNum(got)))
+}
